@@ -49,6 +49,7 @@ const leaf = 4096
 // shared content pool: some multi-leaf, sharing leading leaves
 func pool() [][]byte {
 	base := hx.Expand(42, 3*leaf+17, 0, 0)
+	big := hx.Expand(43, 19*leaf+100, 0, 0)
 	return [][]byte{
 		base,
 		base[:2*leaf],
@@ -57,6 +58,10 @@ func pool() [][]byte {
 		hx.Expand(9, 10, 0, 0),
 		{},
 		hx.Expand(11, leaf+1, 0, 0),
+		// larger than the 32 KiB copy buffer of io.Copy: the uploader's source buffer is refilled while
+		// earlier leaves of the same file may still be in flight
+		big,
+		big[:9*leaf],
 	}
 }
 
@@ -75,7 +80,7 @@ func drawCase(t *rapid.T) caseT {
 		op := opT{Kind: k}
 		switch k {
 		case "upload", "split":
-			op.Files = rapid.SliceOfN(rapid.IntRange(0, 6), 1, 5).Draw(t, "files")
+			op.Files = rapid.SliceOfN(rapid.IntRange(0, 8), 1, 5).Draw(t, "files")
 			op.Conc = rapid.IntRange(1, 8).Draw(t, "conc")
 		case "download", "label":
 			op.Which = rapid.IntRange(0, 1).Draw(t, "which")
